@@ -69,7 +69,9 @@ FAMILIES = {
                         sim(320, 5, design=False, NSlots="= 2", Fresh="= TRUE", Shapes="<- ShapesR", Shapes2="<- Shapes2R"),
                         chain(4, hops=2, Fresh="= TRUE", Ops="<- OpsBarrier", Shapes="<- ShapesR", Shapes2="<- Shapes2R"),
                         sim(160, 4, design=False, NSlots="= 2", Fresh="= TRUE", Shapes="<- ShapesLong", Shapes2="<- Shapes2R"),
-                        chain(4, hops=2, Fresh="= TRUE", Ops="<- OpsRetain", Shapes="<- ShapesOneW", Shapes2="<- Shapes2R")],
+                        chain(4, hops=2, Fresh="= TRUE", Ops="<- OpsRetain", Shapes="<- ShapesOneW", Shapes2="<- Shapes2R"),
+                        sim(400, 6, design=False, NSlots="= 2", Fresh="= TRUE", Ops="<- OpsRetain2", Shapes="<- ShapesOneW",
+                            Shapes2="<- Shapes2R")],
                  thorough=[sim(6000, 6, design=False, NSlots="= 2", Fresh="= TRUE"),
                            sim(1500, 6, design=False, NSlots="= 3", Fresh="= TRUE"),
                            sim(4000, 6, design=False, NSlots="= 2", Fresh="= TRUE", Shapes="<- ShapesR",
@@ -78,7 +80,8 @@ FAMILIES = {
                            sim(3000, 6, design=False, NSlots="= 2", Fresh="= TRUE", Shapes="<- ShapesLong", Shapes2="<- Shapes2R"),
                            chain(5, hops=2, Fresh="= TRUE", Ops="<- OpsRetain", Shapes="<- ShapesOneW", Shapes2="<- Shapes2R")]),
     "Format": fam("MC_Format", full=True,
-                  quick=[chain(2, hops=0), sim(400, 5, design=False, NSlots="= 2")],
+                  quick=[chain(2, hops=0), sim(400, 5, design=False, NSlots="= 2"),
+                         chain(4, hops=0, Ops="<- OpsDomains", Shapes="<- ShapesDom", Shapes2="<- ShapesDom")],
                   thorough=[ex(2), chain(2, hops=0), sim(8000, 7, design=False, NSlots="= 3")]),
     "Faults": dict(module="MC_Faults", spec="FSpec", pre="regdump", constants=dict(BASE, NSlots="= 1"),
                    invariants=["Emit", "DecTotal"],
@@ -96,7 +99,8 @@ FAMILIES = {
                                                    dict(constants={"MaxD": "= 20", "Dup": "= TRUE"})]))),
     "Grpc": fam("MC_Grpc",
                 quick=[chain(3), ex(2, NilOps="= TRUE", HopLast="= 1"), sim(600, 6, design=False, NSlots="= 2"),
-                       chain(5, Ops="<- OpsCode", Shapes="<- ShapesOne")],
+                       chain(5, Ops="<- OpsCode", Shapes="<- ShapesOne"),
+                       chain(4, Ops="<- OpsAllCodes", Shapes="<- ShapesOne")],
                 thorough=[chain(4, hops=2), sim(10000, 8, design=False, NSlots="= 3", NilOps="= TRUE"),
                           chain(6, Ops="<- OpsCode", Shapes="<- ShapesOne")]),
     "Compat": fam("MC_Compat",
